@@ -1,6 +1,7 @@
 package props
 
 import (
+	"bytes"
 	"fmt"
 	"reflect"
 	"testing"
@@ -230,20 +231,34 @@ func mustFail(v interface{}, nm map[string]string) string {
 		return fmt.Sprintf("ToBytes returned nil error and %d octets %s; under the format they read as %s (%v)", len(b), hexClip(b, 60), shortAV(a), derr)
 	}
 	// refused once, refused again: a rejected value must leave nothing behind in the instance
-	var b1, b2 []byte
-	var e1, e2 error
+	var b1, b2, b3, b4 []byte
+	var e1, e2, e3, e4 error
 	if pv, st := guard(func() {
 		s := hessian.NewSerializer(nil, nm)
 		b1, e1 = s.ToBytes(v)
 		b2, e2 = s.ToBytes(v)
+		b3, e3 = s.ToBytes(c13Good)
+		b4, e4 = hessian.ToBytes(c13Good, nil)
 	}); pv != nil {
 		return fmt.Sprintf("second ToBytes of the same value on one Serializer panicked: %v [%s]", pv, st)
 	}
 	if e1 == nil || e2 == nil {
 		return fmt.Sprintf("ToBytes of the same value twice on one Serializer: errors %v / %v, bytes %s / %s", e1, e2, hexClip(b1, 30), hexClip(b2, 30))
 	}
+	// and the next, representable, value is encoded as if the refused one had never been seen: an encode that
+	// "succeeds" with left-overs of the refused value in front is bytes that decode to something else
+	if e3 != nil || !bytes.Equal(b3, c13GoodBytes) {
+		return fmt.Sprintf("after the refusal the same Serializer encodes %v as %s (err %v), a new one as %s", c13Good, hexClip(b3, 40), e3, hexClip(c13GoodBytes, 40))
+	}
+	if e4 != nil || !bytes.Equal(b4, c13GoodBytes) {
+		return fmt.Sprintf("after the refusal the package-level ToBytes encodes %v as %s (err %v); expected %s", c13Good, hexClip(b4, 40), e4, hexClip(c13GoodBytes, 40))
+	}
 	return ""
 }
+
+// c13Good is a small representable value encoded after every refusal; its encoding is context-free.
+var c13Good = []interface{}{"after", int32(7), true}
+var c13GoodBytes = []byte{0x58, 0x93, 0x05, 'a', 'f', 't', 'e', 'r', 0x97, 'T'}
 
 func TestC13(t *testing.T) {
 	r := rec.For("C13")
@@ -293,9 +308,32 @@ func TestC13(t *testing.T) {
 		desc := zoo.Describe(v, 400)
 		c.set("shape", shape)
 		c.set("value", desc)
+		// the value is encoded on its own or as a member of a container that is part of a cycle (a list that
+		// contains itself, a map that holds itself), which in turn is an element of an enclosing list
+		target := v
+		host := rapid.SampledFrom([]string{"", "", "self-containing list", "self-holding map", "two-list cycle"}).Draw(rt, "cyclicHost")
+		switch host {
+		case "self-containing list":
+			cyc := make([]interface{}, 3)
+			cyc[0], cyc[1], cyc[2] = int32(1), v, cyc
+			target = []interface{}{"outer", cyc}
+		case "self-holding map":
+			m := map[interface{}]interface{}{}
+			m["v"], m["self"] = v, m
+			target = []interface{}{"outer", m}
+		case "two-list cycle":
+			a, b := make([]interface{}, 2), make([]interface{}, 2)
+			a[0], a[1] = v, b
+			b[0], b[1] = "b", a
+			target = []interface{}{a, "tail"}
+		}
+		if host != "" {
+			shape += " in " + host
+		}
 		// the base value itself must encode (otherwise an error proves nothing)
 		var berr error
-		if pv, _ := guard(func() { _, berr = hessian.ToBytes(v, copyNames(nm)) }); pv != nil || berr != nil {
+		var baseBytes []byte
+		if pv, _ := guard(func() { baseBytes, berr = hessian.ToBytes(target, copyNames(nm)) }); pv != nil || berr != nil {
 			rt.Skip("base value does not encode (C01's subject)")
 		}
 		r.Current("C13 " + shape + " " + desc)
@@ -307,7 +345,7 @@ func TestC13(t *testing.T) {
 				if restore == nil {
 					continue // unhashable as a map key
 				}
-				msg := mustFail(v, copyNames(nm))
+				msg := mustFail(target, copyNames(nm))
 				restore()
 				r.Eval()
 				r.NonTrivial(h ^ uint64(si)<<20 ^ uint64(ki)<<4)
@@ -319,8 +357,15 @@ func TestC13(t *testing.T) {
 			}
 		}
 		// restored value must still encode
-		if pv, _ := guard(func() { _, berr = hessian.ToBytes(v, copyNames(nm)) }); pv != nil || berr != nil {
+		var again []byte
+		if pv, _ := guard(func() { again, berr = hessian.ToBytes(target, copyNames(nm)) }); pv != nil || berr != nil {
 			failf(rt, c, "C13 harness: base value no longer encodes after restore: %v %v", berr, pv)
+		}
+		if msg := sameStream(baseBytes, again); msg != "" {
+			failf(rt, c, "C13 %s: after the refusals the restored value no longer encodes as before: %s\n base value: %s", shape, msg, desc)
+		}
+		if host != "" {
+			r.Label("host:" + host)
 		}
 		r.Label("shape:" + shape)
 		r.Label("slots:" + bucket(len(slots)))
